@@ -14,7 +14,10 @@ RULE = ("Hypothesis-generated sequential histories over 2-3 root objects bound t
         "mutator (clear()/reset() on nested handles over-weighted) or read through any root or "
         "specification-attached handle, drawn so that consecutive operations usually switch objects; "
         "one step in twenty starts an A-B-A script (object A mutates, object B changes the same "
-        "place, A repeats the same mutation). "
+        "place, A repeats the same mutation); mutations are also issued through child handles whose "
+        "position was REPLACED or REMOVED through their own object (setitem/del/pop/popitem/clear): "
+        "like the old value of d[k] on a built-in dict they are no longer part of the data, so the "
+        "resource and every root must stay unchanged. "
         "Oracle: all handles behave as one plain structure - every outcome equals the model's, the "
         "independently read resource equals the model after every mutator, every root's () equals it "
         "at the end. Non-trivial = a mutator through tree A executed while another tree wrote since "
@@ -41,6 +44,8 @@ def _gen_step(ci, dom, state):
         q = state.setdefault("queue", [])
         while q:
             s = q.pop(0)
+            if s["t"] == "stale_op":
+                return copy.deepcopy(s)
             if w.usable(s["h"]):
                 state["last_obj"] = w.handles[s["h"]].obj
                 return copy.deepcopy(s)
@@ -66,6 +71,34 @@ def _gen_step(ci, dom, state):
                 q.extend([y, copy.deepcopy(x)])
                 state["aba"] = state.get("aba", 0) + 1
                 return x
+        stale = [i for i, h in enumerate(w.handles) if h.unlinked and h.real is not None]
+        if c == 16:
+            # replace the position of a retained first-level child THROUGH ITS OWN OBJECT by a fresh
+            # container of the same kind, then mutate through the old child
+            kids = [i for i in w.attached_handles() if len(w.handles[i].path) == 1]
+            if kids:
+                gi = draw(st.sampled_from(kids))
+                gch = w.handles[gi]
+                parents = [i for i in w.attached_handles() if w.handles[i].obj == gch.obj and not w.handles[i].path]
+                if parents:
+                    newv = draw(dom.dicts(3)) if gch.kind == "dict" else draw(dom.lists(3))
+                    if gch.kind == "dict":
+                        sm = draw(st.sampled_from([("setitem", ["zz_stale", 1]), ("clear", []), ("update", [{"zz_stale": [3]}])]))
+                    else:
+                        sm = draw(st.sampled_from([("append", ["zz_stale"]), ("clear", []), ("extend", [[1, 2]])]))
+                    q.append({"t": "stale_op", "h": gi, "m": sm[0], "a": enc(sm[1])})
+                    return {"t": "op", "h": parents[0], "m": "setitem", "a": [enc(gch.path[0]), enc(newv)]}
+        if stale and c in (17, 18):
+            # a child handle whose position was reassigned/removed through its own object: in one
+            # shared plain structure the old child is no longer part of the data
+            i = draw(st.sampled_from(stale))
+            if w.handles[i].kind == "dict":
+                m, a = draw(st.sampled_from([("setitem", ["zz_stale", 1]), ("clear", []), ("reset", [{"zz_stale": 2}]),
+                                             ("update", [{"zz_stale": [3]}]), ("setdefault", ["zz_stale", {}])]))
+            else:
+                m, a = draw(st.sampled_from([("append", ["zz_stale"]), ("clear", []), ("reset", [["zz_stale"]]),
+                                             ("extend", [[1, 2]]), ("insert", [0, {"zz": 1}])]))
+            return {"t": "stale_op", "h": i, "m": m, "a": enc(a)}
         nested = [i for i in w.attached_handles() if w.handles[i].path]
         if c < 6 and len(nested) < 6:
             s = gen.draw_take(draw, w)
@@ -125,7 +158,8 @@ def run_shard(spec, seed, tier, active):
         state = {}
         w = wm.run_generated(ID, ci, [init], _gen_step(ci, dom, state), draw, max_steps)
         pats = _analyse(w)
-        cnt = {"stale_mutations": len(pats), "A_B_A_same_mutation_scripts": state.get("aba", 0)}
+        cnt = {"stale_mutations": len(pats), "A_B_A_same_mutation_scripts": state.get("aba", 0),
+               "mutations_through_unlinked_handles": w.events.get("mutation_through_unlinked_handle", 0)}
         for p in pats:
             cnt[f"stale.{p[0]}.depth{p[1]}"] = cnt.get(f"stale.{p[0]}.depth{p[1]}", 0) + 1
         sample = {"class": ci.name, "initial": repr(init), "steps": w.log[:16]} if pats else None
